@@ -13,7 +13,7 @@
    Events (all fields always present; nodes are 1..N; eng[n][k] = [ver, lh, var]):
      reset n=N | write n k var at ver t | txset n k var t | txcommit n k var at ver t
      tick from to ops | sync/ack from to ops acc rej ack | fb from to ops
-     drop/dup/lose t from to ops | crash n | restart n | recovered n | sub n s | quiet
+     drop/dup/lose t from to ops | crash n | restart n | recread n from | recovered n | sub n s | quiet
    Start-up recovery is one real call: "restart" is Restart(n), "recovered" is the
    composition of Recover(n, p) over all peers in some order.                          *)
 EXTENDS AspenKV, Json, SequencesExt
@@ -42,6 +42,7 @@ TReset ==
     /\ status' = [n \in Node |-> IF n <= E.n THEN "up" ELSE "off"]
     /\ pend' = [n \in Node |-> {}]
     /\ hwsnap' = [n \in Node |-> 0]
+    /\ rtx' = [n \in Node |-> NoRtx]
     /\ net' = EmptyBag
     /\ faults' = 0 /\ restarts' = 0
     /\ pendw' = [n \in Node |-> NoPend]
@@ -118,13 +119,26 @@ RecPaths(e, g, seq, hw0) ==
     ELSE UNION {LET S == {o \in EngOps(Head(seq)) : o.ver >= hw}
                 IN RecPaths(ApplySet(e, IF AsWasRecovery THEN S ELSE AccSet(e, S)), g \cup S, Tail(seq), hw0) :
                     hw \in (IF AsWasRecovery THEN {hw0, EHW(e)} ELSE {hw0})}
+(* "recread": the harness holds Open of node E.n inside its start-up recovery - peer E.from has
+   streamed everything, Open has not returned, gossip can be delivered to the node.  As
+   repaired nothing is decided at this point (no step); with "RecoveryNotSerialised" the
+   recovery transaction has done its supersedes reads (RecoverRead).                        *)
+TRecRead ==
+    /\ More /\ E.ev = "recread" /\ status[E.n] = "rec"
+    /\ IF NotSerialised THEN RecoverRead(E.n, E.from) ELSE UNCHANGED vars
+    /\ Step
 TRecovered ==
     /\ More /\ E.ev = "recovered" /\ status[E.n] = "rec"
-    /\ \E seq \in SetToSeqs(Node \ {E.n}) : \E r \in RecPaths(eng[E.n], got[E.n], seq, hwsnap[E.n]) :
+    /\ LET open == rtx[E.n].p # 0      \* an open recovery transaction commits first, as decided
+           e0 == IF open THEN ApplySet(eng[E.n], rtx[E.n].a) ELSE eng[E.n]
+           g0 == IF open THEN got[E.n] \cup rtx[E.n].s ELSE got[E.n]
+           rest == (Node \ {E.n}) \ (IF open THEN {rtx[E.n].p} ELSE {})
+       IN \E seq \in SetToSeqs(rest) : \E r \in RecPaths(e0, g0, seq, hwsnap[E.n]) :
           /\ eng' = [eng EXCEPT ![E.n] = r.e]
           /\ got' = [got EXCEPT ![E.n] = r.g]
     /\ status' = [status EXCEPT ![E.n] = "up"]
     /\ pend' = [pend EXCEPT ![E.n] = {}]
+    /\ rtx' = [rtx EXCEPT ![E.n] = NoRtx]
     /\ UNCHANGED <<hwsnap, pendw, ctr, store, reps, net, faults, restarts, written, act, seen, chg, lag, bad>>
     /\ Step
 TSub ==
@@ -137,7 +151,7 @@ TQuiet ==
     /\ Step
 
 TNext == TReset \/ TWrite \/ TTxSet \/ TTxCommit \/ TTick \/ TSync \/ TAck \/ TFb \/ TDrop \/ TDup
-         \/ TCrash \/ TRestart \/ TRecovered \/ TSub \/ TQuiet
+         \/ TCrash \/ TRestart \/ TRecRead \/ TRecovered \/ TSub \/ TQuiet
 TSpec == TInit /\ [][TNext]_<<vars, l>>
 
 (* nodes beyond the scenario's size are "off": they take no step and are ignored      *)
